@@ -117,19 +117,35 @@ Ltac rw :=
 Ltac rdes := repeat match goal with
   | |- context [match rc (R ?s) with _ => _ end] => let E := fresh "Erc" in destruct (rc (R s)) eqn:E
   | |- context [if rco (R ?s) then _ else _] => let E := fresh "Erco" in destruct (rco (R s)) eqn:E
-  | _ : context [match rc (R ?s) with _ => _ end] |- _ => let E := fresh "Erc" in destruct (rc (R s)) eqn:E
   | |- context [match rp (R ?s) with _ => _ end] => let E := fresh "Erp" in destruct (rp (R s)) eqn:E
-  | _ : context [match rp (R ?s) with _ => _ end] |- _ => let E := fresh "Erp" in destruct (rp (R s)) eqn:E
   | |- context [match sp (Sn ?s) with _ => _ end] => let E := fresh "Esp" in destruct (sp (Sn s)) eqn:E
-  | _ : context [match sp (Sn ?s) with _ => _ end] |- _ => let E := fresh "Esp" in destruct (sp (Sn s)) eqn:E
   | |- context [match sw (Sn ?s) with _ => _ end] => let E := fresh "Esw" in destruct (sw (Sn s)) eqn:E
-  | _ : context [match sw (Sn ?s) with _ => _ end] |- _ => let E := fresh "Esw" in destruct (sw (Sn s)) eqn:E
   | |- context [match slot ?s with _ => _ end] => let E := fresh "Esl" in destruct (slot s) as [[|]|] eqn:E
-  | _ : context [match slot ?s with _ => _ end] |- _ => let E := fresh "Esl" in destruct (slot s) as [[|]|] eqn:E
   end.
-Ltac go H := step_cases H; boolh; unf; unfold treg, t5reg, t6reg, kreg, holdsC, holdsT, slotC in *; prj; rw; rdes; prj; rw.
-Ltac fin := intros; boolh; repeat match goal with |- _ /\ _ => split end;
-   try solve [ tauto | congruence | lia | discriminate | intuition (try congruence; try lia; try discriminate) ].
+Ltac cb := cbn [treg t5reg t6reg kreg holdsC holdsT slotC
+                q slot chans pdrop ttok runq R Sn sent rcvd drpd freed rp rc rapi rco rres rdata ralive rdead sp sw salive sres sdead sn] in *.
+Ltac go H := step_cases H; boolh; unf;
+  try (match goal with E : rp (R _) = _ |- _ => unfold treg, t5reg, t6reg, kreg in * end);
+  try (match goal with E : sp (Sn _) = _ |- _ => unfold holdsC, holdsT in * end);
+  try (match goal with E : slot _ = _ |- _ => unfold slotC in * end);
+  cb; rw; rdes; cb; rw.
+Ltac bcase := match goal with
+  | |- ?b = false => destruct b eqn:?; [exfalso | reflexivity]
+  | |- ?b = true => destruct b eqn:?; [reflexivity | exfalso]
+  end.
+Lemma t5_treg x : t5reg x = true -> treg x = true.
+Proof. unfold t5reg, treg. destruct (rp x), (rc x); auto. Qed.
+Lemma t6_t5 x : t6reg x = true -> t5reg x = true.
+Proof. unfold t5reg, t6reg. destruct (rp x), (rc x); auto. Qed.
+Lemma treg_kreg x : treg x = true -> kreg x = true -> False.
+Proof. unfold kreg, treg. destruct (rp x), (rc x); discriminate. Qed.
+Ltac regfacts := repeat match goal with
+  | H : t6reg ?x = true |- _ => lazymatch goal with _ : t5reg x = true |- _ => fail | _ => pose proof (t6_t5 x H) end
+  | H : t5reg ?x = true |- _ => lazymatch goal with _ : treg x = true |- _ => fail | _ => pose proof (t5_treg x H) end
+  | H : treg ?x = true, K : kreg ?x = true |- _ => exfalso; exact (treg_kreg x H K)
+  end.
+Ltac fin0 := try solve [ tauto | congruence | lia | discriminate | intuition (try congruence; try lia; try discriminate) ].
+Ltac fin := intros; boolh; repeat match goal with |- _ /\ _ => split end; fin0; try (regfacts; fin0); try (bcase; fin0).
 
 Lemma inv_init : Inv init.
 Proof.
